@@ -628,10 +628,18 @@ class ContextRecords(Harness):
         from passlib.context import CryptContext, _CryptConfig
         from passlib.utils.decor import memoized_property
 
-        return [_CryptConfig.get_record, _CryptConfig._get_record_list, _CryptConfig.identify_record,
-                vars(_CryptConfig)["disabled_record"].__func__, memoized_property.__get__,
-                CryptContext._get_or_identify_record, CryptContext.dummy_verify,
-                vars(CryptContext)["_dummy_secret"] if "_dummy_secret" in vars(CryptContext) else CryptContext.verify]
+        import types
+
+        cs = [_CryptConfig.get_record, _CryptConfig._get_record_list, _CryptConfig.identify_record,
+              vars(_CryptConfig)["disabled_record"].__func__, memoized_property.__get__,
+              CryptContext._get_or_identify_record, CryptContext.dummy_verify, CryptContext.verify]
+        # whatever the dummy-verify machinery consists of (methods, memoized / plain properties): by name
+        for k, v in vars(CryptContext).items():
+            if "dummy" in k:
+                for f in (v, getattr(v, "__func__", None), getattr(v, "fget", None)):
+                    if isinstance(f, types.FunctionType) and f not in cs:
+                        cs.append(f)
+        return cs
 
     def fresh(self):
         from passlib.context import CryptContext
@@ -654,6 +662,10 @@ class ContextRecords(Harness):
             return lambda: _hash_obs(ctx, ctx.hash(PW, category="admin"))[:2] + (True,)
         if op == "verify_none":
             return lambda: ctx.verify(PW, None)
+        if op == "vau_none":
+            return lambda: ctx.verify_and_update(PW, None)
+        if op == "dummy":
+            return lambda: ctx.dummy_verify()
         if op == "disable":
             return lambda: ctx.is_enabled(ctx.disable(K["md5_crypt"]))
         raise KeyError(op)
@@ -662,7 +674,7 @@ class ContextRecords(Harness):
         ctx = st["ctx"]
         K = _known()
         return (ctx.needs_update(K["sha256_crypt"], category="admin"), ctx.needs_update(K["sha256_crypt"]),
-                ctx.identify(K["md5_crypt"]), ctx.verify(PW, None))
+                ctx.identify(K["md5_crypt"]), ctx.verify(PW, None), ctx.verify_and_update(PW, None))
 
 
 class PostInit(Harness):
@@ -1102,6 +1114,9 @@ def harness_specs(quick):
     add("context_records", ("verify_admin", "needs_update_admin"), b2)
     add("context_records", ("identify", "verify_none"), b2)
     add("context_records", ("hash_admin", "disable"), 1 if quick else 2)
+    add("context_records", ("verify_none", "verify_none"), b2)  # two first uses of the dummy-verify path
+    add("context_records", ("verify_none", "vau_none"), 1 if quick else 2)
+    add("context_records", ("dummy", "verify_none"), 1 if quick else 2)
     add("post_init", ("hash", "verify"), 1 if quick else 2)
     add("post_init", ("ctx_hash", "ctx_verify"), 1 if quick else 2)
     add("post_init", ("using_hash", "verify_bad"), 1 if quick else 2)
